@@ -666,6 +666,27 @@ def r12_stack_top(ctx, F):
                         "`%s` takes `%s()` of the whole preallocated frame array: the live frames end at `count`, so "
                         "this is a default or stale frame, not the top of the call stack" % (
                             short_fn(f.qpath), c.name.split("::")[-1]), fn=f, line=c.line)
+    # `stack[1..count]` (skip the module frame) panics while nothing is being evaluated (count == 0): frames are taken
+    # with the checked `get(1..count)`
+    for f in F.fns.values():
+        if f.crate != "starlark" or "cheap_call_stack::CheapCallStack" not in f.qpath:
+            continue
+        for c in f.calls:
+            if c.bb in f.cleanup or c.indirect or not re.search(r"ops::Index(Mut)?<.*>>::index(_mut)?$", c.name) \
+                    or "Range<usize>" not in c.full or "RangeTo" in c.full:
+                continue
+            start_const = None
+            for o in origins(f, c.args[1], pass_calls=None):
+                if o[0] == "agg":
+                    first = " | ".join(o[1].ops).split(" | ")[0]
+                    m = re.search(r"const Scalar\(0x([0-9a-f]+)\): usize", first)
+                    if m:
+                        start_const = int(m.group(1), 16)
+            if start_const:
+                ctx.bad("C07.R12", "frames-sliced-unchecked:" + short_fn(f.qpath),
+                        "`%s` takes `stack[%d..count]` with the panicking index: when no evaluation is running count is 0 "
+                        "and the public accessor (Evaluator::call_stack) panics" % (short_fn(f.qpath), start_const),
+                        fn=f, line=c.line)
     acc = [f for f in F.fns.values() if f.crate == "starlark" and re.search(
         r"cheap_call_stack::CheapCallStack::<'v>::(top_frame|top_location|top_nth_function_opt)$", f.qpath)]
     uses_count = [f for f in acc if any("CheapCallStack::count}" in st.text() for st in f.stmts)]
@@ -673,6 +694,37 @@ def r12_stack_top(ctx, F):
               "top_frame / top_location / top_nth_function_opt locate the top through `count`",
               "a top-of-stack accessor of CheapCallStack does not read `count` (%s)"
               % sorted(short_fn(f.qpath) for f in acc if f not in uses_count))
+
+
+def r14_format_parser_ascii_steps(ctx, F):
+    """the `str.format` template parser (also run at compile time for constant templates) advances its byte cursor by a
+    constant (`eat(1)`, `eat(2)`) only where it has just established what those bytes are: after matching an ASCII byte
+    of the template or after a successful `starts_with` test. A constant step past an unexamined character slices the
+    template in the middle of a multi-byte character (or past its end) and panics."""
+    from kern import bool_call_edges, switch_info
+    f = F.one(r"dot_format_parser::FormatParser::<'a>::next$")
+    cut = set()
+    for c in f.calls:
+        if c.bb not in f.cleanup and re.search(r"starts_with$", c.name):
+            cut |= set(bool_call_edges(F, f, c, "true"))
+    for b in f.terms:
+        info = switch_info(f, b)
+        if info and info.get("kind") == "int":
+            for v, t in info["targets"].items():
+                if isinstance(v, int) and 0 <= v < 128:
+                    cut.add((b, t))
+    unguarded = f.reach(0, cut_edges=cut)
+    n = 0
+    for c in f.calls:
+        if c.bb in f.cleanup or not re.search(r"StringView::<'a>::eat$", c.name) or not c.args[1].startswith("const"):
+            continue
+        n += 1
+        ctx.check(c.bb not in unguarded, "C07.R14", "format-parser-constant-step@%d" % n,
+                  "the constant step follows a matched ASCII byte / a successful starts_with",
+                  "FormatParser::next advances by a constant number of bytes on a path on which it has not examined those "
+                  "bytes: with a non-ASCII character (or the end of the template) there, `\"{!\u00e9}\".format(1)` "
+                  "panics while slicing the template instead of reporting an invalid conversion", fn=f, line=c.line)
+    ctx.floor("C07.R14", "constant steps of the format template parser", n, 3)
 
 
 def op_name(k):
@@ -695,6 +747,7 @@ def run(ctx):
     r9_signed_arith(ctx, F)
     r10_module_slots(ctx, F)
     r12_stack_top(ctx, F)
+    r14_format_parser_ascii_steps(ctx, F)
     # (MIN, -1) never reaches the panicking small-int % and / (shared with C10.R5)
     from rules.C10 import r5_small_remainder_guarded
     r5_small_remainder_guarded(ctx, F, rule="C07.R13")
